@@ -87,6 +87,17 @@ func patternInvalid(p string) bool {
 	if err == nil && sem {
 		return true
 	}
+	// a repetition count that no machine integer holds cannot be honoured: such a pattern is not usable either
+	for _, m := range reCount.FindAllStringSubmatch(p, -1) {
+		for _, d := range m[1:] {
+			if d == "" {
+				continue
+			}
+			if _, perr := strconv.ParseInt(d, 10, 64); perr != nil {
+				return true
+			}
+		}
+	}
 	return false
 }
 
@@ -535,7 +546,7 @@ var injectors = []struct {
 		}
 	}},
 	{"invalid-pattern", func(r *rng, g *rgrammar, v int) {
-		insertDecl(r, g, rdecl{Kind: "token", Name: "BADPAT", ValKind: "REGEX", Value: pick(r, []string{"a{3,2}", "[b-a]", "a)", "(", "x[", "a{2", "+a", "a||b", `\q`, ":]", "end}", "a]b}c", "]", "}", "x]", "{", "a|", "?", "[9-0", "[z-a]+*", "a{4,2}(", "(x{3,1}", "[b-a", "x{3,1})", "[^9-0"})}, v)
+		insertDecl(r, g, rdecl{Kind: "token", Name: "BADPAT", ValKind: "REGEX", Value: pick(r, []string{"a{3,2}", "[b-a]", "a)", "(", "x[", "a{2", "+a", "a||b", `\q`, ":]", "end}", "a]b}c", "]", "}", "x]", "{", "a|", "?", "a{9223372036854775808,5}", "[0-9]{9223372036854775809,1}", "[9-0", "[z-a]+*", "a{4,2}(", "(x{3,1}", "[b-a", "x{3,1})", "[^9-0"})}, v)
 		if v%2 == 0 {
 			appendToRule(firstRule(g, r), tokE("BADPAT"))
 		}
